@@ -13,6 +13,8 @@ def ops_all():
         ops.append(('rename', k, 'sym'))
         ops.append(('rename', k, 'a'))
         ops.append(('string', k))
+        ops.append(('string', k, 'empty'))
+        ops.append(('share', k))
         for h in ('reverse', 'pop0', 'append', 'insert0', 'slice', 'append2'):
             ops.append(('args', k, h))
     for c in range(3):
@@ -28,7 +30,7 @@ def plan(tier, seed):
     ops = ops_all()
     structural = [o for o in ops if o[0] in ('replace', 'insert', 'append') and o[-1] in ('n', 'a', 'sn')]
     units = []
-    ndocs = 6
+    ndocs = 7
     for di in range(ndocs):
         for o in ops:
             units.append(dict(hfile='history.py', fname='c15_history', args=(di, (o,))))
@@ -48,7 +50,7 @@ def plan(tier, seed):
             for h in itertools.product(core, ed[::2], ed[1::3]):
                 units.append(dict(hfile='history.py', fname='c15_history', args=(di, h)))
     return dict(units=units,
-                bounds={'documents': '6 twin-hole documents (argument texts symbolic letters, separator symbolic TEXT(1))',
+                bounds={'documents': '7 twin-hole documents (argument texts symbolic letters, separator symbolic TEXT(1))',
                         'operations': '%d operation instances: delete / parent.remove / replace_with (string, copied node, possible twin) / rename (symbolic or colliding name) / string / args reverse, pop, append, insert, slice / insert at index 0..2 / append, on the first 4 nodes and 3 containers' % len(ops),
                         'histories': 'all of length 1; length 2: %s%s' % ('structural edits with node material x every operation, (rotating quarter by document and seed), plus a rotating ninth of the other pairs' if tier == 'quick' else 'all pairs', '' if tier == 'quick' else '; length 3: structural x edit x edit subset'),
                         'material': 'symbolic one-character strings and copies of nodes parsed elsewhere (\\n{\\m{1}}, \\a{H} with symbolic H)'},
